@@ -202,11 +202,13 @@ pub struct LinkRenderer {
     pub pkt_counter: u8,
     /// orbits cycle with this period when set (finite value domain for fixpoint searches)
     pub orbit_cycle: Option<u32>,
+    /// number of CDWs rendered so far on this link
+    pub cdw_no: u32,
 }
 
 impl LinkRenderer {
     pub fn new(cfg: &LinkCfg) -> Self {
-        LinkRenderer { cfg: cfg.clone(), hbf: 0, page: 0, trig_no: 0, open_tdh: None, pkt_counter: 0, orbit_cycle: None }
+        LinkRenderer { cfg: cfg.clone(), hbf: 0, page: 0, trig_no: 0, open_tdh: None, pkt_counter: 0, orbit_cycle: None, cdw_no: 0 }
     }
     pub fn orbit(&self) -> u32 {
         let i = match self.orbit_cycle {
@@ -293,7 +295,12 @@ impl LinkRenderer {
                     let t = self.next_tdh(false);
                     ws.push((t.encode(), kind));
                     if *cdw {
-                        ws.push((words::cdw(0x0000_1234_5678, 0), WKind::Cdw));
+                        // calibration series: user fields A with index 0, 1, then B with index 0, 1, ... (a CDW whose
+                        // user fields differ from the previous CDW's starts again at index 0)
+                        // ... and after B back to A (period 4, so that state-space searches close)
+                        let n = self.cdw_no % 4;
+                        self.cdw_no = (self.cdw_no + 1) % 4;
+                        ws.push((words::cdw(0x0000_1234_5678 + 0x1_0000 * (n / 2) as u64, (n % 2) as u32), WKind::Cdw));
                     }
                     for d in dws {
                         ws.push((*d, WKind::Data));
